@@ -427,7 +427,25 @@ fn ep_index(module_suffix: &str) -> Option<usize> {
     world().eps.iter().position(|e| e.name.ends_with(module_suffix))
 }
 
-fn real_req_case(rng: &mut Rng, e: usize, query: &str, body: &str) -> Option<Req> {
+thread_local! {
+    /// why seeds did not become `c16.real.*` cases (printed by `probe`)
+    pub static SKIPS: std::cell::RefCell<crate::real::Skips> = Default::default();
+}
+
+/// The `c16.rt.req` case of a seed and, behind it, the `c16.real.req` case made from it.
+fn real_req_cases(rng: &mut Rng, e: usize, query: &str, body: &str) -> Vec<Req> {
+    let mut extra = None;
+    let first = real_req_case(rng, e, query, body, &mut extra);
+    first.into_iter().chain(extra).collect()
+}
+
+fn real_resp_cases(rng: &mut Rng, e: usize, body: &str) -> Vec<Req> {
+    let mut extra = None;
+    let first = real_resp_case(rng, e, body, &mut extra);
+    first.into_iter().chain(extra).collect()
+}
+
+fn real_req_case(rng: &mut Rng, e: usize, query: &str, body: &str, extra: &mut Option<Req>) -> Option<Req> {
     let w = world();
     let ep = &w.eps[e];
     let names = ep.meta._path_parameters();
@@ -457,10 +475,15 @@ fn real_req_case(rng: &mut Rng, e: usize, query: &str, body: &str) -> Option<Req
     );
     // only seeds the receiving-side conversion accepts carry a value to test
     let rt = (ep.req)(&seed, &[], SendAccessToken::None);
+    if rt.accepted {
+        if let (Some(vs), Some(sat)) = (crate::versions_of(&vtok), crate::sat_of_pub(kind, &token)) {
+            *extra = SKIPS.with(|s| crate::real::req_case(e, &seed, &vtok, &vs, kind, &token, sat, &mut s.borrow_mut()));
+        }
+    }
     rt.accepted.then(|| Req::new(req, format!("rt.req.{}", if query.is_empty() && (body.is_empty() || body == "{}") { "default" } else { "seeded" })))
 }
 
-fn real_resp_case(rng: &mut Rng, e: usize, body: &str) -> Option<Req> {
+fn real_resp_case(rng: &mut Rng, e: usize, body: &str, extra: &mut Option<Req>) -> Option<Req> {
     let w = world();
     let ep = &w.eps[e];
     let mut v: Value = serde_json::from_str(body).expect("seed body is JSON");
@@ -468,6 +491,9 @@ fn real_resp_case(rng: &mut Rng, e: usize, body: &str) -> Option<Req> {
     let seed = RespSeed { status: 200, headers: vec![("content-type".into(), "application/json".into())], body: serde_json::to_vec(&v).unwrap() };
     let req = format!("c16.rt.resp {e} i{} {} s{}", seed.status, pairs_toks(&seed.headers), h_util::hex(&seed.body));
     let rt = (ep.resp)(&seed);
+    if rt.accepted {
+        *extra = SKIPS.with(|s| crate::real::resp_case(e, &seed, &mut s.borrow_mut()));
+    }
     rt.accepted.then(|| Req::new(req, format!("rt.resp.{}", if body == "{}" { "default" } else { "seeded" })))
 }
 
@@ -1107,21 +1133,21 @@ pub fn gen(rng: &mut Rng, n: usize, tier: &str) -> Vec<Req> {
     let reps = if thorough { 20 } else { 2 };
     for e in 0..syn0 {
         for _ in 0..reps {
-            v.extend(real_req_case(rng, e, "", "{}"));
+            v.extend(real_req_cases(rng, e, "", "{}"));
         }
-        v.extend(real_resp_case(rng, e, "{}"));
+        v.extend(real_resp_cases(rng, e, "{}"));
     }
     let reps = if thorough { 60 } else { 6 };
     for s in seeds::REQUEST_SEEDS {
         let e = ep_index(s.module).unwrap_or_else(|| panic!("seed for unknown endpoint {}", s.module));
         for _ in 0..reps {
-            v.extend(real_req_case(rng, e, s.query, s.body));
+            v.extend(real_req_cases(rng, e, s.query, s.body));
         }
     }
     for s in seeds::RESPONSE_SEEDS {
         let e = ep_index(s.module).unwrap_or_else(|| panic!("seed for unknown endpoint {}", s.module));
         for _ in 0..reps {
-            v.extend(real_resp_case(rng, e, s.body));
+            v.extend(real_resp_cases(rng, e, s.body));
         }
     }
 
@@ -1144,8 +1170,8 @@ pub fn probe() {
         if ep.synthetic {
             continue;
         }
-        let a = (0..8).any(|_| real_req_case(&mut rng, e, "", "{}").is_some());
-        let b = real_resp_case(&mut rng, e, "{}").is_some();
+        let a = (0..8).any(|_| real_req_case(&mut rng, e, "", "{}", &mut None).is_some());
+        let b = real_resp_case(&mut rng, e, "{}", &mut None).is_some();
         ok_req += a as usize;
         ok_resp += b as usize;
         println!("{} req-default:{} resp-default:{} params:{:?}", ep.name, a, b, ep.meta._path_parameters());
@@ -1153,12 +1179,12 @@ pub fn probe() {
     println!("default request seed accepted by {ok_req}, default response seed by {ok_resp}");
     for s in seeds::REQUEST_SEEDS {
         let Some(e) = ep_index(s.module) else { println!("UNKNOWN request seed module {}", s.module); continue };
-        let k = (0..20).filter(|_| real_req_case(&mut rng, e, s.query, s.body).is_some()).count();
+        let k = (0..20).filter(|_| real_req_case(&mut rng, e, s.query, s.body, &mut None).is_some()).count();
         println!("request seed {} accepted {k}/20", s.module);
     }
     for s in seeds::RESPONSE_SEEDS {
         let Some(e) = ep_index(s.module) else { println!("UNKNOWN response seed module {}", s.module); continue };
-        let k = (0..20).filter(|_| real_resp_case(&mut rng, e, s.body).is_some()).count();
+        let k = (0..20).filter(|_| real_resp_case(&mut rng, e, s.body, &mut None).is_some()).count();
         println!("response seed {} accepted {k}/20", s.module);
     }
 }
